@@ -219,6 +219,12 @@ struct Run<'c> {
     big_cell: bool,
     /// an empty leaf existed before the current step
     empty_before: bool,
+    scans_done: u64,
+    mismatches: u64,
+    c29_done: bool,
+    c29_pending: bool,
+    /// the persisted hint page handed to the current step is an empty leaf
+    hint_leaf_empty: bool,
     stop: bool,
     seen_classes: BTreeSet<String>,
     max_pages: u32,
@@ -370,6 +376,11 @@ impl<'c> Run<'c> {
             any_hint: false,
             big_cell: false,
             empty_before: false,
+            scans_done: 0,
+            mismatches: 0,
+            c29_done: false,
+            c29_pending: false,
+            hint_leaf_empty: false,
             stop: false,
             seen_classes: BTreeSet::new(),
             max_pages: 2,
@@ -395,14 +406,16 @@ impl<'c> Run<'c> {
             let t = f(&mut bt)?;
             Ok((t, bt.root_page(), bt.rightmost_hint()))
         });
+        if fl_mode {
+            // the freelist object outlives the statement whatever its result: pages it handed
+            // out are gone from the on-disk trunk, so its head/count are persisted in any case
+            self.flh = (fl.head_page(), fl.free_count());
+        }
         match r {
             Ok(Ok((t, nr, nh))) => {
                 self.root = nr;
                 if use_hint && !fl_mode {
                     self.hint = nh;
-                }
-                if fl_mode {
-                    self.flh = (fl.head_page(), fl.free_count());
                 }
                 Out::Ok(t)
             }
@@ -430,9 +443,18 @@ impl<'c> Run<'c> {
 
     fn base_sig(&self, op: &Op, phase: &str) -> BTreeMap<String, String> {
         let mut sig = BTreeMap::new();
-        sig.insert("op".to_string(), phase.to_string());
+        // operation family that exposed the violation (insert / insert_unique / append are one
+        // family: they share the leaf-insert and split code)
+        let fam = phase.replace("insert_unique", "insert").replace("append", "insert");
+        sig.insert("op".to_string(), fam);
         if !op.keystyle().is_empty() {
-            sig.insert("keystyle".to_string(), op.keystyle().to_string());
+            let ks = match op.keystyle() {
+                "tiny" => "tiny",
+                "pfx" => "shared-prefix",
+                "bigk" => "big",
+                _ => "plain",
+            };
+            sig.insert("keystyle".to_string(), ks.to_string());
         }
         sig.insert("hint".to_string(), if self.any_hint { "yes" } else { "no" }.to_string());
         sig.insert("split".to_string(), self.split_class().to_string());
@@ -441,7 +463,58 @@ impl<'c> Run<'c> {
         if self.case.fl > 0 {
             sig.insert("freelist".to_string(), "yes".to_string());
         }
+        if self.hint_leaf_empty {
+            sig.insert("hint_leaf_empty".to_string(), "yes".to_string());
+        }
         sig
+    }
+
+    /// Where a seek for `key` lands, by the walker's own routing: "inside-leaf",
+    /// "past-leaf-end" (greater than every key of the leaf it is routed to) or "empty-leaf".
+    fn seek_lands(&mut self, key: &[u8]) -> String {
+        let leaf = match self.walker.route(&self.st, self.root, key) {
+            Some(l) => l,
+            None => return "unknown".into(),
+        };
+        match self.walker.leaf_last(&self.st, leaf) {
+            Some((0, _)) => "empty-leaf".into(),
+            Some((_, Some(last))) => {
+                if key > last.as_slice() {
+                    "past-leaf-end".into()
+                } else {
+                    "inside-leaf".into()
+                }
+            }
+            _ => "unknown".into(),
+        }
+    }
+
+    /// For a cursor that stopped early: is the leaf it would have had to enter next empty?
+    /// `last_returned`: key of the last entry the cursor delivered (None: it delivered nothing;
+    /// `start_leaf` is then the leaf the cursor started on).
+    fn stop_class(&mut self, last_returned: Option<&[u8]>, start_leaf: Option<u32>, backward: bool) -> String {
+        let leaves = self.shape.leaves.clone();
+        let is_empty = |p: u32, s: &Self| s.shape.empty_leaves.contains(&p);
+        let cur = match last_returned {
+            Some(k) => self.walker.route(&self.st, self.root, k),
+            None => start_leaf,
+        };
+        let cur = match cur {
+            Some(c) => c,
+            None => return "unknown".into(),
+        };
+        if last_returned.is_none() {
+            return if is_empty(cur, self) { "at-empty-leaf".into() } else { "other".into() };
+        }
+        let pos = match leaves.iter().position(|l| *l == cur) {
+            Some(p) => p,
+            None => return "unknown".into(),
+        };
+        let next = if backward { pos.checked_sub(1).and_then(|i| leaves.get(i)) } else { leaves.get(pos + 1) };
+        match next {
+            Some(n) if is_empty(*n, self) => "at-empty-leaf".into(),
+            _ => "other".into(),
+        }
     }
 
     fn case_upto(&self, idx: usize) -> serde_json::Value {
@@ -481,7 +554,7 @@ impl<'c> Run<'c> {
         if !self.seen_classes.insert(class) && self.out.violations.len() >= 2 {
             return;
         }
-        if self.out.violations.len() >= 8 {
+        if self.out.violations.len() >= 4 {
             return;
         }
         let detail = format!("step {} {}: {}\n{}", idx, op.brief(), detail, self.shape_brief());
@@ -496,7 +569,8 @@ impl<'c> Run<'c> {
 
     /// Called after a C28 result mismatch: either stop, or adopt the tree's own content.
     fn after_mismatch(&mut self) {
-        if !self.case.cont {
+        self.mismatches += 1;
+        if !self.case.cont || self.mismatches >= 25 {
             self.stop = true;
             return;
         }
@@ -553,12 +627,21 @@ impl<'c> Run<'c> {
         self.max_pages = self.max_pages.max(self.st.page_count());
         let mut seen = BTreeSet::new();
         for f in findings {
-            if !seen.insert(f.verdict) {
+            if self.c29_done || !seen.insert(f.verdict) {
                 continue;
             }
             let phase = op.kind().to_string();
             self.violate("C29", f.verdict, idx, op, &phase, &[], format!("page walker after this step: {}", f.detail));
-            self.stop = true;
+            // the structure is reported once per run. A history that keeps exploring structure
+            // (cont) ends here; otherwise the run goes on comparing results with the model, so
+            // that the semantic consequences of a broken page are seen by C28 as well.
+            self.c29_pending = true;
+            if self.case.cont {
+                self.stop = true;
+            }
+        }
+        if self.c29_pending {
+            self.c29_done = true;
         }
     }
 
@@ -577,15 +660,23 @@ impl<'c> Run<'c> {
         match r {
             Out::Ok(actual) => {
                 let exp = self.expected_range(Some(key));
-                if let Some((class, detail)) = diff_scan(&actual, &exp, false) {
-                    let d = format!("cursor_seek({}) [{}]: {}", brief_bytes(key), how, detail);
-                    self.violate("C28", "seek-scan-mismatch", idx, op, "scan-seek", &[("diff", class), ("seekpos", how.to_string())], d);
+                let diff = diff_scan(&actual, &exp, false);
+                drop(exp);
+                if let Some((class, detail)) = diff {
+                    let lands = self.seek_lands(key);
+                    let mut extra = vec![("diff", class.clone()), ("lands", lands.clone())];
+                    if class == "truncated" && !actual.is_empty() {
+                        let last = actual.last().map(|x| x.0.clone()).unwrap_or_default();
+                        extra.push(("stop", self.stop_class(Some(&last), None, false)));
+                    }
+                    let d = format!("cursor_seek({}) [{}; seek key lands {}]: {}", brief_bytes(key), how, lands, detail);
+                    self.violate("C28", "seek-scan-mismatch", idx, op, "scan-seek", &extra, d);
                     self.after_mismatch();
                 }
             }
             Out::Err(e) => {
                 let d = format!("cursor_seek({}) [{}] failed: {}", brief_bytes(key), how, e);
-                self.violate("C28", "seek-scan-mismatch", idx, op, "scan-seek", &[("diff", "error".into()), ("err", normalise_err(&e)), ("seekpos", how.to_string())], d);
+                self.violate("C28", "seek-scan-mismatch", idx, op, "scan-seek", &[("diff", "error".into()), ("err", normalise_err(&e))], d);
                 self.after_mismatch();
             }
             Out::Panic(site, msg) => {
@@ -603,8 +694,16 @@ impl<'c> Run<'c> {
         match r {
             Out::Ok(actual) => {
                 let exp = self.expected_range(None);
-                if let Some((class, detail)) = diff_scan(&actual, &exp, false) {
-                    self.violate("C28", "forward-scan-mismatch", idx, op, "scan-fwd", &[("diff", class)], format!("cursor_first + advance: {}", detail));
+                let diff = diff_scan(&actual, &exp, false);
+                drop(exp);
+                if let Some((class, detail)) = diff {
+                    let mut extra = vec![("diff", class.clone())];
+                    if class == "truncated" {
+                        let first_leaf = self.shape.leaves.first().copied();
+                        let last = actual.last().map(|x| x.0.clone());
+                        extra.push(("stop", self.stop_class(last.as_deref(), first_leaf, false)));
+                    }
+                    self.violate("C28", "forward-scan-mismatch", idx, op, "scan-fwd", &extra, format!("cursor_first + advance: {}", detail));
                     self.after_mismatch();
                 }
             }
@@ -626,8 +725,16 @@ impl<'c> Run<'c> {
             Out::Ok(actual) => {
                 let mut exp = self.expected_range(None);
                 exp.reverse();
-                if let Some((class, detail)) = diff_scan(&actual, &exp, true) {
-                    self.violate("C28", "backward-scan-mismatch", idx, op, "scan-back", &[("diff", class)], format!("cursor_last + prev: {}", detail));
+                let diff = diff_scan(&actual, &exp, true);
+                drop(exp);
+                if let Some((class, detail)) = diff {
+                    let mut extra = vec![("diff", class.clone())];
+                    if class == "truncated" {
+                        let last_leaf = self.shape.leaves.last().copied();
+                        let last = actual.last().map(|x| x.0.clone());
+                        extra.push(("stop", self.stop_class(last.as_deref(), last_leaf, true)));
+                    }
+                    self.violate("C28", "backward-scan-mismatch", idx, op, "scan-back", &extra, format!("cursor_last + prev: {}", detail));
                     self.after_mismatch();
                 }
             }
@@ -725,6 +832,15 @@ impl<'c> Run<'c> {
     fn step(&mut self, idx: usize, op: &Op) {
         self.out.count(&format!("op.{}", op.kind()), 1);
         self.empty_before = !self.shape.empty_leaves.is_empty();
+        self.hint_leaf_empty = false;
+        if op.hinted() && self.case.fl == 0 {
+            if let Some(h) = self.hint {
+                if let Some((0, _)) = self.walker.leaf_last(&self.st, h) {
+                    self.hint_leaf_empty = true;
+                    self.out.count("probe.hinted_op_with_empty_hint_leaf", 1);
+                }
+            }
+        }
         if op.hinted() && self.case.fl == 0 {
             self.any_hint = true;
             if self.hint.is_some() {
@@ -1035,8 +1151,11 @@ impl<'c> Run<'c> {
                 res_brief = "scan".into();
             }
         }
-        if completed && !self.out.violations.iter().any(|v| v.property == "C29") {
-            let full = matches!(op, Op::Scan { .. });
+        if completed {
+            let full = matches!(op, Op::Scan { .. }) && {
+                self.scans_done += 1;
+                self.scans_done % 8 == 0
+            };
             self.structure_check(idx, op, full);
         }
         let e = format!(
@@ -1072,6 +1191,42 @@ impl<'c> Run<'c> {
     }
 }
 
+/// Text dump of the tree as the walker parses it (triage aid: `VSIM_DEBUG=1 btsim case <file>`).
+fn dump_tree(st: &SimStorage, root: u32) -> Vec<String> {
+    let mut out = vec![];
+    let mut stack = vec![(root, 0usize)];
+    let mut seen = BTreeSet::new();
+    while let Some((p, depth)) = stack.pop() {
+        if !seen.insert(p) || out.len() > 400 {
+            continue;
+        }
+        let d = match st.raw(p) {
+            Some(d) => d,
+            None => continue,
+        };
+        let parsed = crate::walker::parse_page(p, d);
+        let pad = "  ".repeat(depth);
+        match &parsed.node {
+            crate::walker::Node::Leaf { n, next, .. } => {
+                let cells = crate::walker::read_leaf_cells(d).unwrap_or_default();
+                let keys: Vec<String> = cells.iter().map(|(k, v)| format!("{}={}B", brief_bytes(k), v.len())).collect();
+                let free_start = u16::from_le_bytes([d[4], d[5]]);
+                let free_end = u16::from_le_bytes([d[6], d[7]]);
+                out.push(format!("{}leaf {} n={} next={} free={}..{} [{}]", pad, p, n, next, free_start, free_end, keys.join(", ")));
+            }
+            crate::walker::Node::Interior { seps, children } => {
+                let ss: Vec<String> = seps.iter().map(|k| brief_bytes(k)).collect();
+                out.push(format!("{}interior {} seps=[{}] children={:?}", pad, p, ss.join(", "), children));
+                for c in children.iter().rev() {
+                    stack.push((*c, depth + 1));
+                }
+            }
+            crate::walker::Node::Bad { type_byte } => out.push(format!("{}page {} type {:#x}", pad, p, type_byte)),
+        }
+    }
+    out
+}
+
 pub fn run_bt_case(case: &BtCase) -> RunOutcome {
     let mut run = match Run::new(case) {
         Ok(r) => r,
@@ -1101,12 +1256,13 @@ pub fn run_bt_case(case: &BtCase) -> RunOutcome {
         let last = case.ops.len() - 1;
         let fin = Op::Scan { s: 7, q: 4 };
         run.out.count("final_checks", 1);
+        run.hint_leaf_empty = false;
         run.full_scan(last, &fin, 7, 4);
-        if !run.stop && !run.out.violations.iter().any(|v| v.property == "C29") {
+        if !run.stop {
             run.structure_check(last, &fin, true);
         }
         // model size vs entries seen by the walker
-        if !run.stop && run.out.violations.is_empty() && run.shape.entries != run.model.len() {
+        if !run.stop && !run.c29_done && run.out.violations.is_empty() && run.shape.entries != run.model.len() {
             let d = format!("walker counts {} entries in reachable leaves, model has {}", run.shape.entries, run.model.len());
             run.violate("C28", "forward-scan-mismatch", last, &fin, "final-count", &[("diff", "count".into())], d);
         }
@@ -1132,8 +1288,10 @@ pub fn run_bt_case(case: &BtCase) -> RunOutcome {
     run.out.fingerprint = fnv1a(serde_json::to_string(&case.ops).unwrap_or_default().as_bytes());
     run.out.events_hash = mix(run.ev_hash, mix(run.root as u64, run.st.page_count() as u64));
     run.out.states = run.states.iter().copied().collect();
+    let dump = if std::env::var_os("VSIM_DEBUG").is_some() { dump_tree(&run.st, run.root) } else { vec![] };
     run.out.sample = serde_json::json!({
         "kind": "btree",
+        "tree_dump": dump,
         "ops": case.ops.len(),
         "executed": executed,
         "freelist_spares": case.fl,
